@@ -301,7 +301,7 @@ def _plan(prop, T):
         ]
         return dict(
             jobs=jobs,
-            rule="evaluation = one in-contract public operation executed under a crash oracle (debug assertions + overflow checks + std unsafe-precondition checks; AddressSanitizer on the optimised build; Miri); the verdict is the process outcome only. distinct non-trivial = distinct cases reported by the suites (states / reference contents x operation)",
+            rule="evaluation = one in-contract public operation executed under a crash oracle (debug assertions + overflow checks + std unsafe-precondition checks; AddressSanitizer and valgrind memcheck on the optimised build; Miri); the verdict is the process outcome only. distinct non-trivial = distinct cases reported by the suites (states / reference contents x operation)",
             require={"ops_executed": 500000, "domains_built": 1000, "op_index_after": 1000, "op_export": 1000, "op_clear": 1000},
             exhaustive_scope="process outcome of the union workload over all seven collections",
             assumptions=["ASan red zones do not see a wild access that lands in another live allocation; the dbg flavour's exact index check and Miri cover that on the paths they run", "no-hang clause decided only as: no reproduced stall of a single call"],
